@@ -1,5 +1,6 @@
 """C05 - see DESIGN.md section 5; shared machinery in corecommon.py"""
 from checks import corecommon as cc
+from checks import corefam8
 
 PID = "C05"
 LEVEL = cc.LEVEL
@@ -13,6 +14,7 @@ RULE = ("grammar-generated task programs (profiles %s; trees and DAGs of tasks, 
         "the real scheduler and replayed in the Lean machine with the implementation's flush choices; non-trivial = at "
         "least 2 tasks and 1 scheduler flush; distinct by hash of (configuration, programs)" % (", ".join(p for p, _ in MIX)))
 RULE += "; plus families prioflush (get_priority on class / instance / mock.patch.object, items answered before the flush, several rounds: flush order = greatest priority first) and crossthread, judged by direct expectation (Drv/Families6t.lean)"
+RULE += "; plus round-6 families selfcancel (items of a batch whose flush completes its own batch: each completed exactly once with its first outcome, flush events once around the flush) and flushabort (a flush refused by a before-flush handler / a raising _try_switch_active_batch / an after-flush handler: the batch is not flushed later by an unrelated computation, flushed once when awaited again), judged by direct expectation (Drv/Families8.lean)"
 TRUSTED = cc.TRUSTED_CORE
 ASSUMPTIONS = cc.ASSUMPTIONS_CORE
 
@@ -22,7 +24,8 @@ def extra(tier, rng):
         [{"special": "reflush", "n": n, "depth": d} for n in (1, 2, 3) for d in (1, 2, 3)] + \
         cc.corefam4.hookssurvive_cases(tier, cc.fork(rng, "hooks")) + cc.corefam4.eventhook_cases(tier, cc.fork(rng, "eventhook")) + \
         cc.guard_cases(tier, cc.fork(rng, "guard")) + \
-        cc.corefam6t.prioflush_cases(tier, cc.fork(rng, "prioflush")) + cc.corefam6t.crossthread_cases(tier, cc.fork(rng, "crossthread"))
+        cc.corefam6t.prioflush_cases(tier, cc.fork(rng, "prioflush")) + cc.corefam6t.crossthread_cases(tier, cc.fork(rng, "crossthread")) + \
+        corefam8.selfcancel_cases(tier, cc.fork(rng, "selfcancel")) + corefam8.flushabort_cases(tier, cc.fork(rng, "flushabort"), stale_dims=False)
 
 
 def plan(tier, seed):
@@ -30,10 +33,14 @@ def plan(tier, seed):
 
 
 def run_case(case):
+    if case.get("special") in corefam8.RUNNERS:
+        return corefam8.run(case, PID)
     return cc.run_case_for(PID, case)
 
 
 def shrink(case):
+    if case.get("special") in corefam8.RUNNERS:
+        return corefam8.shrink(case)
     return cc.shrink_case(case)
 
 
